@@ -38,6 +38,11 @@ pub struct Profile {
     pub small: bool,
     /// DFS sweep: the shape is fixed from outside (no decisions are spent on it)
     pub force_shape: Option<(Fam, Cont, usize)>,
+    /// streams only: after the final `None`, fire stale wakers and poll the combinator a few more times (C03:
+    /// a finished child must not be polled again, whatever the consumer does)
+    pub post_final_pct: u32,
+    /// share of leaves whose destructor invokes a waker
+    pub drop_wake_pct: u32,
 }
 
 pub const CONCURRENT: [Fam; 6] = [Fam::Join, Fam::TryJoin, Fam::Race, Fam::RaceOk, Fam::Merge, Fam::Zip];
@@ -82,6 +87,8 @@ pub fn profile(prop: &str, thorough: bool) -> Profile {
         always_ready: false,
         small: false,
         force_shape: None,
+        post_final_pct: 20,
+        drop_wake_pct: 12,
     };
     let bigs = vec![22, 23, 24, 40, 63, 64, 65, 128, 129, 200, 256, 257];
     match prop {
@@ -249,7 +256,7 @@ pub fn gen_case(w: &mut World, p: &Profile) -> CaseA {
             _ => p.err_pct / 3,
         };
         if Some(i) == always {
-            leaves.push(LeafSpec { script: vec![], always_ready: true, resumable: false });
+            leaves.push(LeafSpec { script: vec![], always_ready: true, resumable: false, wake_on_drop: false });
             continue;
         }
         let mut script = gen_script(w, p, *stream, never[i], err_pct);
@@ -260,7 +267,8 @@ pub fn gen_case(w: &mut World, p: &Profile) -> CaseA {
             let more = gen_script(w, p, true, false, 0);
             script.extend(more);
         }
-        leaves.push(LeafSpec { script, always_ready: false, resumable });
+        let wake_on_drop = !p.small && w.chance(p.drop_wake_pct);
+        leaves.push(LeafSpec { script, always_ready: false, resumable, wake_on_drop });
     }
     // one injected panic at a single child poll
     if nl > 0 && w.chance(p.panic_pct) {
@@ -307,7 +315,7 @@ pub fn describe_case(c: &CaseA) -> String {
     let scripts: Vec<String> = c
         .leaves
         .iter()
-        .map(|l| if l.always_ready { "[Item*]".to_string() } else { format!("{:?}", l.script.iter().take(10).collect::<Vec<_>>()) })
+        .map(|l| if l.always_ready { "[Item*]".to_string() } else { format!("{:?}{}", l.script.iter().take(10).collect::<Vec<_>>(), if l.wake_on_drop { "+wake-on-drop" } else { "" }) })
         .collect();
     format!("shape={} cancel_at={:?} scripts={}", c.shape.describe(), c.cancel_at, scripts.join(" "))
 }
@@ -530,6 +538,57 @@ pub fn run_case(p: &Profile, case: &CaseA) -> ExecOut {
     let rl = w(|w| w.root_last);
     if !cancelled && out.inconclusive.is_none() && rl == RootLast::Pending {
         w(|w| model::i6_check(w));
+    }
+    // A consumer may poll a stream again after `None` (some of the combinators panic by design then, which is
+    // fine and ignored here); what must not happen is that a child which itself finished is polled again.
+    // (wait_until is a transparent view of its inner stream and forwards such polls by design: excluded)
+    if rl == RootLast::Final && !p.small && case.shape.fam != Fam::WaitS && matches!(root, Some(Root::S(_))) && w(|w| w.chance(p.post_final_pct)) {
+        for _ in 0..(1 + w(|w| w.below(2))) {
+            // stale wake-ups of finished children first: they re-arm readiness bits
+            for _ in 0..w(|w| w.below(3)) {
+                let pk = w(|w| {
+                    let with: Vec<Cid> = w.ch.iter().enumerate().filter(|(_, c)| !c.wakers.is_empty()).map(|(i, _)| i).collect();
+                    if with.is_empty() {
+                        None
+                    } else {
+                        let c = with[w.below(with.len())];
+                        let k = w.ch[c].wakers.len();
+                        Some((c, if w.below(2) == 0 { k - 1 } else { w.below(k) }))
+                    }
+                });
+                if let Some((c, i)) = pk {
+                    fire(c, i, false, FireCtx::Between);
+                }
+            }
+            next_waker_id += 1;
+            let waker = Waker::from(Arc::new(ParentWaker(next_waker_id)));
+            w(|w| {
+                w.parent_cur = next_waker_id;
+                w.phase = Phase::Polling;
+                w.post_final = true;
+                w.st.post_final_polls += 1;
+                w.ev(Ev::Note("consumer polls again after the final None".into()));
+            });
+            let mut cx = Context::from_waker(&waker);
+            let r = std::panic::catch_unwind(std::panic::AssertUnwindSafe(|| {
+                if let Some(Root::S(s)) = root.as_mut() {
+                    if let Poll::Ready(Some(v)) = s.as_mut().poll_next(&mut cx) {
+                        received.push(v);
+                    }
+                }
+            }));
+            w(|w| {
+                w.phase = Phase::Idle;
+                w.poll_stack.clear();
+                w.post_final = false;
+                if r.is_err() {
+                    w.st.post_final_panics += 1;
+                }
+            });
+            if r.is_err() {
+                break;
+            }
+        }
     }
     w(|w| w.small_mode = p.small);
     finish(&mut out, root.take().map(|r| Box::new(move || drop(r)) as Box<dyn FnOnce()>), received, polls0, pend0, cancelled);
